@@ -1340,7 +1340,7 @@ func main() {
 			addFB(c.Ops, "corpus")
 		}
 	}
-	ncc := o.Scale(600, 30000)
+	ncc := o.Scale(420, 30000)
 	for i := 0; i < ncc; i++ {
 		if i%3 == 2 {
 			ops, tags := genCCFB(r)
@@ -1350,7 +1350,7 @@ func main() {
 			addCC(ops, append(tags, "twcc")...)
 		}
 	}
-	nfb := o.Scale(400, 20000)
+	nfb := o.Scale(280, 20000)
 	for i := 0; i < nfb; i++ {
 		ops, tags := genFB(r)
 		addFB(ops, tags...)
